@@ -226,8 +226,10 @@ func ipmEvent(r *common.Rand, tl *tlb, pre string) {
 			d = dur(r, 0, 5)
 		}
 		tl.add(pre+"ab:%s:%d", k, d)
-	case x < 65:
+	case x < 62:
 		tl.add(pre+"al:%d", ip)
+	case x < 67:
+		tl.add(pre + "rs")
 	case x < 77:
 		tl.add(pre+"ar:%d", ip)
 	case x < 84:
@@ -281,6 +283,56 @@ func genIPShadow(r *common.Rand) string {
 		tl.add("al:%d", ip)
 		tl.add("c")
 		tl.add("al:%d", ip)
+	}
+	return "ip " + strings.Join(tl.evs, " ")
+}
+
+// structured: entries of every kind (permanent / temporary, exact / CIDR, whitelist), then a new
+// manager over the same storage, queries on it; removals, expiry and lazy removal before or after
+// further reloads.
+func genIPReload(r *common.Rand) string {
+	tl := &tlb{t: tick}
+	n := 1 + r.Intn(4)
+	for i := 0; i < n; i++ {
+		k := common.Pick(r, keys)
+		switch r.Intn(5) {
+		case 0:
+			tl.add("aw:%s", k)
+		case 1, 2:
+			tl.add("ab:%s:0", k)
+		default:
+			tl.add("ab:%s:%d", k, dur(r, 0, 4))
+		}
+	}
+	if r.Intn(4) == 0 {
+		tl.adv(r.Intn(3))
+	}
+	tl.add("rs")
+	for _, a := range addrs {
+		tl.add("al:%d", a)
+	}
+	for i := 0; i < 1+r.Intn(3); i++ {
+		tl.adv(r.Intn(4))
+		switch r.Intn(6) {
+		case 0:
+			tl.add("rb:%s", common.Pick(r, keys))
+		case 1:
+			tl.add("rw:%s", common.Pick(r, keys))
+		case 2:
+			tl.add("ar:%d", common.Pick(r, addrs))
+		case 3:
+			tl.add("c")
+		case 4:
+			tl.add("ab:%s:%d", common.Pick(r, keys), common.Pick(r, []int{0, 0, 30, 70}))
+		default:
+			tl.add("al:%d", common.Pick(r, addrs))
+		}
+		if r.Bool() {
+			tl.add("rs")
+		}
+		for _, a := range addrs {
+			tl.add("al:%d", a)
+		}
 	}
 	return "ip " + strings.Join(tl.evs, " ")
 }
@@ -483,6 +535,10 @@ func generate(r *common.Rand, tier string) []job {
 	add(70, "bf-window", genBFWindow)
 	add(200, "ip-random", genIPRandom)
 	add(80, "ip-shadow", genIPShadow)
+	add(120, "ip-reload", genIPReload)
+	for _, c := range exhaustive("ip ", []string{"ab:" + ip + "/x:0", "ab:" + ip + "/x:30", "ab:167772160/8:0", "aw:" + ip + "/x", "rs"}, "al:"+ip, depth) {
+		jobs = append(jobs, job{"", c, "ip-reload-exhaustive"})
+	}
 	add(220, "rl", genRL)
 	add(240, "hs-random", genHS)
 	add(80, "hs-locked", genHSLocked)
